@@ -102,7 +102,7 @@ func Payload(o Options) *Scenario {
 	// ---- entry 1: a regular (maybe config) file
 	content := []byte("AB")
 	if o.SymContent {
-		content = zz.NondetBytes("f1.content", zz.Bound("scen.content", 2, 4))
+		content = zz.NondetBytes("f1.content", zz.Bound("scen.content", 2, 6))
 	}
 	statMode := fs.FileMode(u32(o.SymModes, "f1.statmode", 0o644))
 	zz.Assume(statMode&^ChmodBits == 0)
